@@ -361,6 +361,12 @@ def const_value(x):
     return VPy(x)
 
 
+def z3_string_value(term) -> str:
+    """Python string of a z3 string literal (z3 prints non-ASCII characters as \\u{hex})."""
+    import re
+    return re.sub(r'\\u\{([0-9a-fA-F]+)\}', lambda m: chr(int(m.group(1), 16)), term.as_string())
+
+
 def str_to_cps(s: str):
     if not s:
         return z3.Empty(z3.SeqSort(z3.IntSort()))
